@@ -16,6 +16,11 @@ func init() {
 			c.guard("C11.3", func() { ruleStreamLockObservation(c, "C11.3") })
 			c.guard("C11.5", func() { ruleLongHeldLockAcquisitions(c, "C11.5") })
 			c.guard("C11.6", func() { ruleForwardEscapableByStream(c, "C11.6") })
+			c.guard("C11.7", func() {
+				rulePipeline(c, "C11.7", func(q queueSpec) bool {
+					return strings.HasPrefix(q.name, "srvstream.") || q.name == "stream.respChan" || q.name == "unary.respChan"
+				}, false)
+			})
 			c.guard("C11.4", func() {
 				ruleClientRegistrationPairing(c, "C11.4")
 				ruleTrailerBeforeUnregister(c, "C11.4")
@@ -250,11 +255,17 @@ func init() {
 		run: func(c *Ctx, thorough bool) {
 			c.guard("C12.1", func() { ruleHandlerGate(c, "C12.1") })
 			c.guard("C12.2", func() {
-				rulePanicReachability(c, "C12.2", c.p.inFns("goat.handler.", "goat.Server.", "server.", "goat.contextFromHeaders", "goat.parse", "int."))
+				rulePanicReachability(c, "C12.2", c.p.reachFns("goat.handler.", "goat.Server.", "server.", "goat.contextFromHeaders", "goat.parse", "int."))
 			})
 			c.guard("C12.3", func() { ruleServerNilChecks(c, "C12.3") })
 			c.guard("C12.4", func() { ruleUnknownStream(c, "C12.4") })
 			c.guard("C12.5", func() { ruleServingContinues(c, "C12.5") })
+			c.guard("C12.7", func() {
+				// the per-stream inbound queue is never closed while the read loop may be sending on it
+				f := func(d string) bool { return d == "ch" || d == "done" || d == "writeChan" || d == "unaryRpcChan" }
+				ruleCloseSendExclusion(c, "C12.7", f)
+				rulePipeline(c, "C12.7", func(q queueSpec) bool { return strings.HasPrefix(q.name, "srvstream.") || strings.HasPrefix(q.name, "conn.") }, false)
+			})
 			c.guard("C12.6", func() {
 				ruleForwardEscapableByStream(c, "C12.6")
 				ruleNoBlockUnderRegistryLock(c, "C12.6", func(k string) bool { return k == "goat.handler.mu" })
@@ -267,13 +278,12 @@ func init() {
 		ruleText:    "obligation = one return, field access, panic site, exit path, channel operation; non-trivial = needed facts, provenance, path search, locksets",
 		assumptions: baseAssumptions,
 		run: func(c *Ctx, thorough bool) {
-			clientFns := c.p.inFns("client.", "goat.ClientConn.", "goat.headersFromContext")
 			c.guard("C13.1", func() { ruleValueOrError(c, "C13.1") })
 			c.guard("C13.2", func() {
-				n := ruleOptionalSubMsgNilChecked(c, "C13.2", clientFns, nil)
+				n := ruleOptionalSubMsgNilChecked(c, "C13.2", c.p.reachFns("client.", "goat.ClientConn.", "goat.headersFromContext"), nil)
 				c.floor("C13.2", "field accesses through optional sub-messages (client side)", n, 2)
 			})
-			c.guard("C13.3", func() { rulePanicReachability(c, "C13.3", clientFns) })
+			c.guard("C13.3", func() { rulePanicReachability(c, "C13.3", c.p.reachFns("client.", "goat.ClientConn.", "goat.headersFromContext")) })
 			c.guard("C13.4", func() { ruleLatchRelease(c, "C13.4") })
 			c.guard("C13.5", func() { ruleTerminalErrorAssigned(c, "C13.5") })
 			c.guard("C13.6", func() { ruleUnknownIdsDropped(c, "C13.6") })
@@ -312,6 +322,10 @@ func init() {
 			c.guard("C14.3", func() { ruleCancelNotDropped(c, "C14.3") })
 			c.guard("C14.4", func() { rulePerRPCGoroutinesCanExit(c, "C14.4") })
 			c.guard("C14.5", func() { ruleQueuesDieWithRegistration(c, "C14.5") })
+			c.guard("C14.7", func() {
+				// an RPC ends for the peer only if the terminal envelopes have the shape the peer treats as terminal
+				ruleShapeCatalogue(c, "C14.7")
+			})
 			c.guard("C14.6", func() {
 				// the "deadline" outcome releases the server side only if the deadline reaches the handler
 				ruleTimeoutTables(c, "C14.6", "C14.6")
@@ -328,6 +342,13 @@ func init() {
 			c.guard("C15.1", func() { ruleGuardedFields(c, "C15.1", nil) })
 			c.guard("C15.3", func() { ruleSingleOwnerFields(c, "C15.3") })
 			c.guard("C15.4", func() { ruleReceivedEnvelopeStores(c, "C15.4") })
+			c.guard("C15.5", func() {
+				// envelopes do not share mutable parts: every envelope has its own header literal, and payloads are owned
+				// copies, not aliases of recycled codec buffers
+				ruleShapeCatalogue(c, "C15.5")
+				rulePayloadProvenance(c, "C15.5")
+				ruleStreamPayloadProvenance(c, "C15.5")
+			})
 		},
 	})
 	register(&propSpec{
@@ -345,6 +366,7 @@ func init() {
 			c.guard("C16.7", func() {
 				// the peer table keeps pointing at the live connection of a name
 				ruleRemovalIdentityChecked(c, "C16.7")
+				ruleFailureReported(c, "C16.7")
 			})
 		},
 	})
@@ -357,7 +379,12 @@ func init() {
 		ruleText:    "obligation = one gated site, panic site, blocking primitive, removal or report; non-trivial = needed facts, taint provenance, may-block summaries, context ancestry",
 		assumptions: baseAssumptions,
 		run: func(c *Ctx, thorough bool) {
-			c.guard("C17.1", func() { ruleProxySourceGate(c, "C17.1") })
+			c.guard("C17.1", func() {
+				ruleProxySourceGate(c, "C17.1")
+				// no proxy function touches a field of the (optional) header without a nil guard, helpers included
+				n := ruleOptionalSubMsgNilChecked(c, "C17.1", c.p.reachFns("goat.Proxy.", "goat.proxyClient.", "goat.NewProxy"), nil)
+				c.floor("C17.1", "field accesses through optional sub-messages (proxy)", n, 4)
+			})
 			c.guard("C17.2", func() { ruleForwardingLoopNeverWaits(c, "C17.2") })
 			c.guard("C17.3", func() { ruleRemovalIdentityChecked(c, "C17.3"); ruleFreshPeerQueue(c, "C17.3") })
 			c.guard("C17.4", func() { rulePeerLoopsCanExit(c, "C17.4") })
